@@ -42,13 +42,13 @@ def import_lines(imps, indir, marker=None, frm=None):
     return lines
 
 
-def module_src(k, imps, indir=()):
+def module_src(k, imps, indir=(), nouse=False):
     lines = ['Binde "Duden/Ausgabe" ein.']
     lines += import_lines(imps, indir, frm=k)
     lines += ["Die Funktion helfer gibt eine Zahl zurück, macht:", '\tSchreibe "h%d ".' % k, "\tGib %d zurück." % k, "Und kann so benutzt werden:", '\t"hilf mir"', "",
               "Die öffentliche Zahl wert%d ist hilf mir." % k, "Die Zahl geheim%d ist 100 plus %d." % (k, k),
               "Die öffentliche Funktion zeige%d gibt eine Zahl zurück, macht:" % k,
-              "\tGib %s zurück." % " plus ".join(["wert%d" % k] + ["wert%d" % t["t"] for t in imps if t["t"] != k]),
+              "\tGib %s zurück." % " plus ".join(["wert%d" % k] + ([] if nouse else ["wert%d" % t["t"] for t in imps if t["t"] != k])),
               "Und kann so benutzt werden:", '\t"zeige%d"' % k, "",
               "Die öffentliche Konstante KONST%d ist %d." % (k, k),
               "Wir nennen die öffentliche Kombination aus", "\tder öffentlichen Zahl inhalt mit Standardwert wert%d," % k, "einen Kasten%d, und erstellen sie so:" % k, '\t"ein Kasten%d"' % k, "",
@@ -124,6 +124,8 @@ def graphs(tier, rng):
     for imp in ([[F(2)], D, [F(1)], []], [[F(3)], D, [], [F(1)]], [[F(1)], D, [F(1)], []], [[F(1)], D, [], [F(1)]], [[F(2)], D, [F(3)], [F(1)]], [[F(2)], [], [F(1)], []],
                 [[F(2), F(1)], D, [F(1)], []]):
         res.append(dict(n=4, dir=[2, 3], imp=[[dict(e) for e in l] for l in imp]))
+        # the same graph with modules that import but never use what they import: the import structure alone decides
+        res.append(dict(n=4, dir=[2, 3], nouse=True, imp=[[dict(e) for e in l] for l in imp]))
     # duplicates out
     seen, uniq = set(), []
     for g in res:
@@ -144,7 +146,7 @@ def run(tier):
     for g in gs:
         files = {"main.ddp": main_src(g["imp"][0], indir=g["dir"])}
         for k in range(1, g["n"]):
-            files[mpath(k, g["dir"]) + ".ddp"] = module_src(k, g["imp"][k], g["dir"])
+            files[mpath(k, g["dir"]) + ".ddp"] = module_src(k, g["imp"][k], g["dir"], nouse=bool(g.get("nouse")))
         files_of.append(files)
         jobs.append(dict(files=files, main="main.ddp"))
     answers = pool.run(jobs)
